@@ -52,9 +52,9 @@ std::size_t gen_count(Rng& rng)
 
 std::string gen_name(Rng& rng)
 {
-    static char const* names[] = {"d1", "two words", "", " ", "  lead", "trail  ", "#x", "12 3", "\tTab", "a  b   c"};
-    std::size_t k = rng.below(11);
-    if (k == 10) return std::string(300, 'x') + " end";
+    static char const* names[] = {"d1", "two words", "", " ", "  lead", "trail  ", "#x", "12 3", "\tTab", "a  b   c", "ends with CR\r", "\r", "mid\rdle", "trailing tab\t"};
+    std::size_t k = rng.below(15);
+    if (k == 14) return std::string(300, 'x') + " end";
     return names[k];
 }
 
@@ -63,7 +63,8 @@ char const* name_class(std::string const& n)
     if (n.empty()) return "empty";
     if (n.find_first_not_of(" \t") == std::string::npos) return "blank";
     if (n[0] == ' ' || n[0] == '\t') return "leading-blank";
-    if (n[n.size() - 1] == ' ') return "trailing-blank";
+    if (n[n.size() - 1] == ' ' || n[n.size() - 1] == '\t') return "trailing-blank";
+    if (n.find('\r') != std::string::npos) return "carriage-return";
     return "ordinary";
 }
 
